@@ -171,6 +171,23 @@ class HashSystem(System):
                 for name, hf in (("default_fnv_1a", default_fnv_1a), ("default_md5", default_md5), ("default_sha256", default_sha256),
                                  ("dec_bytes", K.blake_bytes), ("dec_int", K.crc_int)):
                     check_strategy(name, hf, key, None, (1, 2, 7, 16, 33))
+            # increasing deep requests in one process (lazily grown per-index tables, memoised chains)
+            for name, hf, ref in (("default_fnv_1a", default_fnv_1a, ref64), ("default_md5", default_md5, None),
+                                  ("default_sha256", default_sha256, None), ("dec_bytes", K.blake_bytes, None)):
+                for key in (b"deep", "deep-text"):
+                    data = key if isinstance(key, bytes) else key.encode()
+                    seen_full = None
+                    for d in (17, 18, 20, 5, 33, 2, 40, 64, 65, 3, 65):
+                        got = hf(key, d)
+                        n[0] += 1
+                        if ref is not None and got != [ref(data, i) for i in range(d)]:
+                            bad("hash.equals_reference_fnv1a", {"strategy": name, "key": repr(key), "depth": d, "after": "earlier deeper/shallower requests"})
+                            break
+                        if seen_full is not None and got[: min(d, len(seen_full))] != seen_full[: min(d, len(seen_full))]:
+                            bad("hash.prefix_stable", {"strategy": name, "key": repr(key), "depth": d, "after": "earlier requests of other depths"})
+                            break
+                        if seen_full is None or len(got) > len(seen_full):
+                            seen_full = got
             # every structure's hashes() is its strategy
             for name, hf in (("fnv", default_fnv_1a), ("md5", default_md5), ("dec_int", K.crc_int), (None, None)):
                 eff = hf or default_fnv_1a
